@@ -195,20 +195,20 @@ _RUN = {'ro': _ro_run, 'dro': _dro_run}
 _REF_MEMO = {}
 
 
-def _safe(fe, events):
+def _safe(fe, events, how=None):
     try:
-        return _RUN[fe](events)
+        return _RUN[fe](events, how) if how else _RUN[fe](events)
     except Exception as ex:  # noqa
         return ('raise', C.exc_class(ex)), len(events)
 
 
-def _ref(fe, events):
+def _ref(fe, events, how=None):
     import json
-    key = fe + json.dumps(events, sort_keys=True)
+    key = fe + str(how) + json.dumps(events, sort_keys=True)
     if key not in _REF_MEMO:
         if len(_REF_MEMO) > 5000:
             _REF_MEMO.clear()
-        _REF_MEMO[key] = _safe(fe, events)
+        _REF_MEMO[key] = _safe(fe, events, how)
     return _REF_MEMO[key]
 
 
@@ -278,7 +278,8 @@ def run(case):
     events = case['ev']
     tag = case['tag']
     tol = C.TOL_CONE
-    hist, nops = _safe(fe, events)
+    how = case.get('how')
+    hist, nops = _safe(fe, events, how)
     groups = {}
     for ev in events:
         g = ev.get('grp')
@@ -294,7 +295,7 @@ def run(case):
         if not any(e['op'] in ('forall', 'forall2', 'defuse', 'rc', 'ec', 'el', 'defobj', 'pw') and e.get('add', True)
                    for e in evs):
             continue
-        st, n = _ref(fe, evs)
+        st, n = _ref(fe, evs, how)
         trans += n
         refs[g] = st
         if st[0] == 'opt':
